@@ -15,7 +15,7 @@ FUNCTIONS = ["wannierberri.run_grid.run (whole refinement loop, serial)", "run_g
 BOUNDS = dict(quick=dict(grid="NKdiv 2x2x1 / 2x1x1, NKFFT 1", iterations="adpt_num_iter <= 2", adpt_fac="1, 2", adpt_mesh="2, (2,1,1), 3",
                          symmetry="none, C4z, Inversion (use_irred_kpt True/False)", storage="memory, dump_results, allow_restart, discarded (adpt_num_iter=0)",
                          criteria="1 or 2 refinement criteria per K-point"),
-              thorough=dict(grid="NKdiv 2x2x1, 2x2x2, 3x1x1", iterations="<= 3", adpt_fac="1, 2", adpt_mesh="2, (2,1,1), 3", symmetry="none, C4z, Inversion, C2z",
+              thorough=dict(grid="NKdiv 2x2x1, 2x2x2, 3x1x1, 3x3x1", iterations="<= 3 (4 on 2x1x1 with mesh (2,1,1))", adpt_fac="1, 2", adpt_mesh="2, (2,1,1), 3", symmetry="none, C4z, Inversion, C2z",
                             storage="all", criteria="1 or 2"))
 EXPLANATION = ("The real run() is driven with a stub data_k_class and a stub calculator whose per-K result r(K) and refinement priorities p(K) are symbolic atoms; "
                "which K-points are refined is decided by forks on the priorities, so every refinement history within the bounds is one path. After every iteration "
@@ -92,6 +92,12 @@ def cases(tier, seed):
     if not q:
         out.append(Case("2x2x2 Inversion niter=2", case_run, dict(NKdiv=(2, 2, 2), gens=["Inversion"], niter=2, adpt_fac=1, adpt_mesh=2, store={}), timeout=3000))
         out.append(Case("2x1x1 noSym niter=3 mesh=(2,1,1)", case_run, dict(NKdiv=(2, 1, 1), gens=[], niter=3, adpt_fac=1, adpt_mesh=(2, 1, 1), store=dict(dump_results=True)), timeout=3000))
+        for st_name, st in stores:
+            out.append(Case(f"2x2x1 gens=['C4z'] niter=3 fac=1 mesh=2 store={st_name}", case_run, dict(NKdiv=(2, 2, 1), gens=["C4z"], niter=3, adpt_fac=1, adpt_mesh=2, store=st), timeout=6000))
+        out.append(Case("2x2x1 gens=['C4z'] niter=1 fac=2 two criteria", case_run, dict(NKdiv=(2, 2, 1), gens=["C4z"], niter=1, adpt_fac=2, adpt_mesh=2, store={}, nprio=2), timeout=6000))
+        out.append(Case("2x2x2 gens=['C4z'] niter=1 mesh=2", case_run, dict(NKdiv=(2, 2, 2), gens=["C4z"], niter=1, adpt_fac=1, adpt_mesh=2, store={}), timeout=6000))
+        out.append(Case("3x3x1 gens=['C4z'] niter=2 mesh=2 (non-dyadic)", case_run, dict(NKdiv=(3, 3, 1), gens=["C4z"], niter=2, adpt_fac=1, adpt_mesh=2, store=dict(allow_restart=True)), timeout=6000))
+        out.append(Case("2x1x1 noSym niter=4 mesh=(2,1,1) dump", case_run, dict(NKdiv=(2, 1, 1), gens=[], niter=4, adpt_fac=1, adpt_mesh=(2, 1, 1), store=dict(dump_results=True)), timeout=6000))
         out.append(Case("3x1x1 C2z niter=2 fac=2", case_run, dict(NKdiv=(3, 1, 1), gens=["C2z"], niter=2, adpt_fac=2, adpt_mesh=2, store=dict(allow_restart=True)), timeout=3000))
     # a run continued from the files of an earlier iteration (harness of C11): its obligations "saved result == weighted sum over the current K list"
     # and "weights sum to one" are this property on the K lists a restart produces
